@@ -154,7 +154,7 @@ fn layout_case(_: &u8, obs: &mut Obs) -> CaseResult {
 }
 
 pub fn run(run: &mut Run) {
-    let n = run.cases(200_000, 20_000_000);
+    let n = run.cases(1_000_000, 40_000_000);
     run.sub(
         "tss_descriptor",
         "tss_segment_unchecked on edge-biased + uniform u64 addresses (a pure function of the pointer); oracle: independent 16-byte system-descriptor decoder: base = full 64-bit address, limit 0x67, type 0b1001, S=0, DPL 0, P=1, AVL/L/DB/G=0, upper 32 bits of the high word zero; non-trivial = address with bits set in >= 2 of the three base fields; distinct by address",
@@ -162,7 +162,7 @@ pub fn run(run: &mut Run) {
         prop_oneof![u64_edge(), any::<u64>(), canon_va()],
         tss_case,
     );
-    let n = run.cases(50_000, 2_000_000);
+    let n = run.cases(200_000, 8_000_000);
     run.sub(
         "dpl",
         "Descriptor::dpl() on arbitrary u64 patterns (user and system) = bits 45-46",
